@@ -103,20 +103,164 @@ theorem cleaned_empty_filter {u : Int} {st : Status} {i : Identity} {p : Int} {t
 theorem updOp_other (ops : Identity → Option Op) {i k : Identity} (o : Op) (h : k ≠ i) : updOp ops i o k = ops k := by
   simp [updOp, h]
 
-/-! ### the "current view" invariant -/
+/-! ### what each label does, spelled out -/
 
-/-- An operator whose last processed version is the current one holds exactly the pause verdict of
-    the current status (evaluated at the time it processed it). -/
-def Inv (u : Int) (s : State) : Prop :=
-  ∀ i op, s.ops i = some op → ∀ v t, op.seen = some (v, t) →
-    v ≤ s.ver ∧ (v = s.ver → op.paused = blockedB u s.status i op.prio t)
-
-theorem inv_init (u : Int) : Inv u init := by
-  intro i op h; simp [init] at h
+theorem guard_iff {o : Op} : (o.alive && !o.exiting) = true ↔ o.alive = true ∧ o.exiting = false := by
+  cases o.alive <;> cases o.exiting <;> simp
 
 /-- does the call of operator k on the current status end in a sleep-then-touch? -/
 def willTouch (u : Int) (s : State) (k : Identity) (o : Op) : Bool :=
   (decideCore u s.status.peers k o.prio true (some o.paused) s.now s.now).touch
+
+/-- does the call of operator i on `view` end in a sleep-then-touch? -/
+def willTouchView (u : Int) (view : Status) (i : Identity) (o : Op) (now : Int) : Bool :=
+  (decideCore u view.peers i o.prio true (some o.paused) now now).touch
+
+/-- the identities a call on `view` hands to `clean()` -/
+def staleCleaned (u : Int) (view : Status) (i : Identity) (now : Int) : List Identity :=
+  (deadPeers u now i view.peers).map (·.id)
+
+theorem start_spec {u : Int} {s s1 : State} {i : Identity} {p L : Int} (h : step u s (.start i p L) = some s1) :
+    s1.now = s.now ∧ s1.status = s.status ∧ s1.ver = s.ver ∧ (∀ o, s.ops i = some o → o.alive = false) ∧
+      s1.ops = updOp s.ops i { prio := p, lifetime := L, alive := true, paused := true, seen := none } := by
+  simp only [step] at h
+  cases hk : s.ops i with
+  | none =>
+    simp only [hk, Option.some.injEq] at h
+    subst h
+    refine ⟨rfl, rfl, rfl, ?_, rfl⟩
+    intro o ho; cases ho
+  | some o =>
+    simp only [hk] at h
+    by_cases ha : o.alive = true
+    · simp [ha] at h
+    · rw [if_neg ha] at h
+      simp only [Option.some.injEq] at h
+      subst h
+      refine ⟨rfl, rfl, rfl, ?_, rfl⟩
+      intro o' ho'
+      injection ho' with e
+      subst e
+      simpa using ha
+
+theorem keepalive_spec {u : Int} {s s1 : State} {i : Identity} {lag : Nat} (h : step u s (.keepalive i lag) = some s1) :
+    ∃ o, s.ops i = some o ∧ o.alive = true ∧ o.exiting = false ∧ s1.now = s.now ∧ s1.ver = s.ver + 1 ∧
+      s1.status = s.status.patch i (touchVal u o.prio o.lifetime (s.now - lag)) ∧
+      s1.ops = updOp s.ops i { o with nextKA := some (s.now + (o.lifetime * u - marginT u o.lifetime)) } := by
+  simp only [step] at h
+  cases hk : s.ops i with
+  | none => simp [hk] at h
+  | some o =>
+    simp only [hk] at h
+    by_cases hg : (o.alive && !o.exiting) = true
+    · rw [if_pos hg] at h
+      simp only [Option.some.injEq] at h
+      subst h
+      exact ⟨o, rfl, (guard_iff.mp hg).1, (guard_iff.mp hg).2, rfl, rfl, rfl, rfl⟩
+    · rw [if_neg hg] at h; cases h
+
+theorem exit_spec {u : Int} {s s1 : State} {a : Identity} (h : step u s (.exit a) = some s1) :
+    ∃ o, s.ops a = some o ∧ o.alive = true ∧ s1.now = s.now ∧ s1.status = s.status.erase a ∧
+      s1.ops = updOp s.ops a { o with alive := false, sleeping := false, nextKA := none } ∧ s1.ver = s.ver + 1 := by
+  simp only [step] at h
+  cases hk : s.ops a with
+  | none => simp [hk] at h
+  | some o =>
+    simp only [hk] at h
+    by_cases hg : (o.alive && !o.exiting) = true
+    · rw [if_pos hg] at h
+      simp only [Option.some.injEq] at h
+      subst h
+      have hz : touchVal u o.prio 0 s.now = none := by simp [touchVal, Rec.dead, Rec.deadline]
+      exact ⟨o, rfl, (guard_iff.mp hg).1, rfl, by simp only [hz, Status.patch], rfl, rfl⟩
+    · rw [if_neg hg] at h; cases h
+
+theorem exitBegin_spec {u : Int} {s s1 : State} {a : Identity} (h : step u s (.exitBegin a) = some s1) :
+    ∃ o, s.ops a = some o ∧ o.alive = true ∧ o.exiting = false ∧ s1.now = s.now ∧ s1.status = s.status.erase a ∧
+      s1.ops = updOp s.ops a { o with exiting := true, sleeping := false, nextKA := none } ∧ s1.ver = s.ver + 1 := by
+  simp only [step] at h
+  cases hk : s.ops a with
+  | none => simp [hk] at h
+  | some o =>
+    simp only [hk] at h
+    by_cases hg : (o.alive && !o.exiting) = true
+    · rw [if_pos hg] at h
+      simp only [Option.some.injEq] at h
+      subst h
+      have hz : touchVal u o.prio 0 s.now = none := by simp [touchVal, Rec.dead, Rec.deadline]
+      exact ⟨o, rfl, (guard_iff.mp hg).1, (guard_iff.mp hg).2, rfl, by simp only [hz, Status.patch], rfl, rfl⟩
+    · rw [if_neg hg] at h; cases h
+
+theorem exitEnd_spec {u : Int} {s s1 : State} {a : Identity} (h : step u s (.exitEnd a) = some s1) :
+    ∃ o, s.ops a = some o ∧ o.alive = true ∧ o.exiting = true ∧ s1.now = s.now ∧ s1.status = s.status ∧ s1.ver = s.ver ∧
+      s1.ops = updOp s.ops a { o with alive := false, exiting := false, sleeping := false } := by
+  simp only [step] at h
+  cases hk : s.ops a with
+  | none => simp [hk] at h
+  | some o =>
+    simp only [hk] at h
+    by_cases hg : (o.alive && o.exiting) = true
+    · rw [if_pos hg] at h
+      simp only [Option.some.injEq] at h
+      subst h
+      have : o.alive = true ∧ o.exiting = true := by simpa using hg
+      exact ⟨o, rfl, this.1, this.2, rfl, rfl, rfl, rfl⟩
+    · rw [if_neg hg] at h; cases h
+
+theorem kill_spec {u : Int} {s s1 : State} {a : Identity} (h : step u s (.kill a) = some s1) :
+    ∃ o, s.ops a = some o ∧ o.alive = true ∧ s1.now = s.now ∧ s1.status = s.status ∧
+      s1.ops = updOp s.ops a { o with alive := false, sleeping := false } ∧ s1.ver = s.ver := by
+  simp only [step] at h
+  cases hk : s.ops a with
+  | none => simp [hk] at h
+  | some o =>
+    simp only [hk] at h
+    by_cases ha : o.alive = true
+    · rw [if_pos ha] at h
+      simp only [Option.some.injEq] at h
+      subst h
+      exact ⟨o, rfl, ha, rfl, rfl, rfl, rfl⟩
+    · simp [ha] at h
+
+theorem exitLost_spec {u : Int} {s s1 : State} {a : Identity} (h : step u s (.exitLost a) = some s1) :
+    ∃ o, s.ops a = some o ∧ o.alive = true ∧ s1.now = s.now ∧ s1.status = s.status ∧
+      s1.ops = updOp s.ops a { o with alive := false, sleeping := false } ∧ s1.ver = s.ver := by
+  simp only [step] at h
+  cases hk : s.ops a with
+  | none => simp [hk] at h
+  | some o =>
+    simp only [hk] at h
+    by_cases ha : o.alive = true
+    · rw [if_pos ha] at h
+      simp only [Option.some.injEq] at h
+      subst h
+      exact ⟨o, rfl, ha, rfl, rfl, rfl, rfl⟩
+    · simp [ha] at h
+
+theorem wake_spec {u : Int} {s s1 : State} {i : Identity} {lag : Nat} (h : step u s (.wake i lag) = some s1) :
+    ∃ o, s.ops i = some o ∧ o.sleeping = true ∧ s1.now = s.now ∧
+      s1.status = s.status.patch i (touchVal u o.prio o.lifetime (s.now - lag)) ∧
+      s1.ops = updOp s.ops i { o with sleeping := false } ∧ s1.ver = s.ver + 1 := by
+  simp only [step] at h
+  cases hk : s.ops i with
+  | none => simp [hk] at h
+  | some o =>
+    simp only [hk] at h
+    by_cases ha : o.sleeping = true
+    · rw [if_pos ha] at h
+      simp only [Option.some.injEq] at h
+      subst h
+      exact ⟨o, rfl, ha, rfl, rfl, rfl, rfl⟩
+    · simp [ha] at h
+
+/-- a call ends in sleep-then-touch exactly when somebody blocks the operator -/
+theorem decideCore_touch {u : Int} {st : Status} {i : Identity} {p : Int} {ac : Bool} {tg : Option Bool} {now now2 : Int} :
+    (decideCore u st.peers i p ac tg now now2).touch = blockedB u st i p now := by
+  have h1 := decideCore_status_paused (u := u) (st := st) (i := i) (p := p) (ac := ac) (b := true) (now := now) (now2 := now2)
+  simp only [decideCore, Option.map_some, Option.some.injEq] at h1
+  rw [← h1]
+  simp only [decideCore]
+  cases hs : samePeers p (livePeers u now i st.peers) <;> cases hp : prioPeers p (livePeers u now i st.peers) <;> simp
 
 /-- what a successful `deliver k` does, spelled out. -/
 theorem deliver_spec {u : Int} {s s1 : State} {k : Identity} (h : step u s (.deliver k) = some s1) :
@@ -130,116 +274,141 @@ theorem deliver_spec {u : Int} {s s1 : State} {k : Identity} (h : step u s (.del
   | none => simp [hk] at h
   | some o =>
     simp only [hk] at h
-    by_cases ha : o.alive = true
-    · simp only [ha, if_true, Option.some.injEq] at h
+    by_cases hg : (o.alive && !o.exiting) = true
+    · rw [if_pos hg] at h
+      simp only [Option.some.injEq] at h
       subst h
-      refine ⟨o, rfl, ha, rfl, rfl, ?_, ?_, ?_⟩
+      refine ⟨o, rfl, (guard_iff.mp hg).1, rfl, rfl, ?_, ?_, ?_⟩
       · simp only; split <;> omega
       · simp only
         intro hv
         split at hv
-        · rename_i hc; exact cleaned_empty_filter hc
+        · rename_i hc; exact hc
         · omega
-      · simp only [decideCore_status_paused, Option.getD_some, ha, willTouch]
-    · simp [ha] at h
+      · simp only [decideCore_status_paused, Option.getD_some, willTouch]
+    · rw [if_neg hg] at h; cases h
+
+/-- what a call on `view` records as "seen": the current version if the view is benign, nothing otherwise -/
+def staleSeen (u : Int) (s : State) (i : Identity) (prio : Int) (view : Status) : Option (Nat × Int) :=
+  if benignView u s i prio view then some (s.ver, s.now) else none
+
+theorem stale_spec {u : Int} {s s1 : State} {i : Identity} {view : Status} (h : step u s (.deliverStale i view) = some s1) :
+    ∃ o, s.ops i = some o ∧ o.alive = true ∧ s1.now = s.now ∧
+      s1.status = s.status.eraseAll (staleCleaned u view i s.now) ∧
+      s.ver ≤ s1.ver ∧ (s1.ver = s.ver → s1.status = s.status) ∧
+      s1.ops = updOp s.ops i { o with paused := blockedB u view i o.prio s.now, sleeping := willTouchView u view i o s.now, seen := staleSeen u s i o.prio view } := by
+  simp only [step] at h
+  cases hk : s.ops i with
+  | none => simp [hk] at h
+  | some o =>
+    simp only [hk] at h
+    by_cases hg : (o.alive && !o.exiting) = true
+    · rw [if_pos hg] at h
+      simp only [Option.some.injEq] at h
+      subst h
+      refine ⟨o, rfl, (guard_iff.mp hg).1, rfl, ?_, ?_, ?_, ?_⟩
+      · simp [decideCore, staleCleaned]
+      · simp only; split <;> omega
+      · simp only
+        intro hv
+        split at hv
+        · rename_i hc
+          simpa [decideCore, staleCleaned] using hc
+        · omega
+      · simp only [decideCore_status_paused, Option.getD_some, willTouchView, staleSeen]
+    · rw [if_neg hg] at h; cases h
+
+/-! ### the "current view" invariant -/
+
+/-- An operator whose last processed version is the current one holds exactly the pause verdict of
+    the current status (evaluated at the time it processed it). -/
+def Inv (u : Int) (s : State) : Prop :=
+  ∀ i op, s.ops i = some op → ∀ v t, op.seen = some (v, t) →
+    v ≤ s.ver ∧ (v = s.ver → op.paused = blockedB u s.status i op.prio t)
+
+theorem inv_init (u : Int) : Inv u init := by
+  intro i op h; simp [init] at h
+
+/-- a step that leaves (or forgets) what every operator has seen, and does not rewind the version -/
+theorem inv_frame {u : Int} {s s' : State} (hi : Inv u s) (hver : s.ver ≤ s'.ver)
+    (hst : s'.ver = s.ver → s'.status = s.status)
+    (hops : ∀ k op', s'.ops k = some op' → op'.seen = none ∨
+      ∃ op, s.ops k = some op ∧ op'.seen = op.seen ∧ op'.paused = op.paused ∧ op'.prio = op.prio) : Inv u s' := by
+  intro k op' hk v t hs
+  rcases hops k op' hk with hn | ⟨op, ho, hse, hpa, hpr⟩
+  · rw [hn] at hs; cases hs
+  · obtain ⟨h1, h2⟩ := hi k op ho v t (by rw [← hse]; exact hs)
+    refine ⟨by omega, ?_⟩
+    intro hv
+    have hsv : s'.ver = s.ver := by omega
+    rw [hst hsv, hpa, hpr]
+    exact h2 (by omega)
+
+/-- the operator entries after `updOp` with an entry that keeps `seen`, `paused`, `prio` -/
+theorem hops_upd {s s' : State} {i : Identity} {o onew : Op} (ho : s.ops i = some o) (hops : s'.ops = updOp s.ops i onew)
+    (h1 : onew.seen = o.seen) (h2 : onew.paused = o.paused) (h3 : onew.prio = o.prio) :
+    ∀ k op', s'.ops k = some op' → op'.seen = none ∨
+      ∃ op, s.ops k = some op ∧ op'.seen = op.seen ∧ op'.paused = op.paused ∧ op'.prio = op.prio := by
+  intro k op' hk
+  rw [hops] at hk
+  by_cases hki : k = i
+  · subst hki
+    simp at hk
+    subst hk
+    exact Or.inr ⟨o, ho, h1, h2, h3⟩
+  · rw [updOp_other _ _ hki] at hk
+    exact Or.inr ⟨op', hk, rfl, rfl, rfl⟩
+
+theorem hops_same {s s' : State} (hops : s'.ops = s.ops) :
+    ∀ k op', s'.ops k = some op' → op'.seen = none ∨
+      ∃ op, s.ops k = some op ∧ op'.seen = op.seen ∧ op'.paused = op.paused ∧ op'.prio = op.prio := by
+  intro k op' hk
+  rw [hops] at hk
+  exact Or.inr ⟨op', hk, rfl, rfl, rfl⟩
 
 theorem inv_step {u : Int} {s s' : State} {l : Label} (hi : Inv u s) (h : step u s l = some s') : Inv u s' := by
   cases l with
   | start i prio lifetime =>
-    simp only [step] at h
-    have key : s' = { s with ops := updOp s.ops i { prio, lifetime, alive := true, paused := true, seen := none } } := by
-      cases hk : s.ops i with
-      | none => simp [hk] at h; exact h.symm
-      | some o =>
-        simp only [hk] at h
-        by_cases ha : o.alive = true
-        · simp [ha] at h
-        · simp [ha] at h; exact h.symm
-    subst key
-    intro k op hk v t hs
+    obtain ⟨_, hst, hver, _, hops⟩ := start_spec h
+    refine inv_frame hi (by omega) (fun _ => hst) ?_
+    intro k op' hk
+    rw [hops] at hk
     by_cases hki : k = i
-    · subst hki
-      simp at hk
-      subst hk
-      simp at hs
-    · simp only [updOp_other _ _ hki] at hk
-      exact hi k op hk v t hs
+    · subst hki; simp at hk; subst hk; exact Or.inl rfl
+    · rw [updOp_other _ _ hki] at hk; exact Or.inr ⟨op', hk, rfl, rfl, rfl⟩
   | keepalive i lag =>
-    simp only [step] at h
-    cases hk : s.ops i with
-    | none => simp [hk] at h
-    | some o =>
-      simp only [hk] at h
-      by_cases ha : o.alive = true
-      · simp only [ha, if_true, Option.some.injEq] at h
-        subst h
-        intro k op hk' v t hs
-        by_cases hki : k = i
-        · subst hki
-          simp at hk'
-          subst hk'
-          obtain ⟨h1, _⟩ := hi k o hk v t hs
-          exact ⟨by simp only; omega, by simp only; omega⟩
-        · simp only [updOp_other _ _ hki] at hk'
-          obtain ⟨h1, _⟩ := hi k op hk' v t hs
-          exact ⟨by simp only; omega, by simp only; omega⟩
-      · simp [ha] at h
+    obtain ⟨o, ho, _, _, _, hver, _, hops⟩ := keepalive_spec h
+    exact inv_frame hi (by omega) (fun e => by omega) (hops_upd ho hops rfl rfl rfl)
   | exit i =>
-    simp only [step] at h
-    cases hk : s.ops i with
-    | none => simp [hk] at h
-    | some o =>
-      simp only [hk] at h
-      by_cases ha : o.alive = true
-      · simp only [ha, if_true, Option.some.injEq] at h
-        subst h
-        intro k op hk' v t hs
-        by_cases hki : k = i
-        · subst hki
-          simp at hk'
-          subst hk'
-          obtain ⟨h1, _⟩ := hi k o hk v t hs
-          exact ⟨by simp only; omega, by simp only; omega⟩
-        · simp only [updOp_other _ _ hki] at hk'
-          obtain ⟨h1, _⟩ := hi k op hk' v t hs
-          exact ⟨by simp only; omega, by simp only; omega⟩
-      · simp [ha] at h
-  | kill i =>
-    simp only [step] at h
-    cases hk : s.ops i with
-    | none => simp [hk] at h
-    | some o =>
-      simp only [hk] at h
-      by_cases ha : o.alive = true
-      · simp only [ha, if_true, Option.some.injEq] at h
-        subst h
-        intro k op hk' v t hs
-        by_cases hki : k = i
-        · subst hki
-          simp at hk'
-          subst hk'
-          exact hi k o hk v t hs
-        · simp only [updOp_other _ _ hki] at hk'
-          exact hi k op hk' v t hs
-      · simp [ha] at h
+    obtain ⟨o, ho, _, _, _, hops, hver⟩ := exit_spec h
+    exact inv_frame hi (by omega) (fun e => by omega) (hops_upd ho hops rfl rfl rfl)
+  | exitBegin i =>
+    obtain ⟨o, ho, _, _, _, _, hops, hver⟩ := exitBegin_spec h
+    exact inv_frame hi (by omega) (fun e => by omega) (hops_upd ho hops rfl rfl rfl)
+  | exitEnd i =>
+    obtain ⟨o, ho, _, _, _, hst, hver, hops⟩ := exitEnd_spec h
+    exact inv_frame hi (by omega) (fun _ => hst) (hops_upd ho hops rfl rfl rfl)
   | exitLost i =>
-    simp only [step] at h
-    cases hk : s.ops i with
-    | none => simp [hk] at h
-    | some o =>
-      simp only [hk] at h
-      by_cases ha : o.alive = true
-      · simp only [ha, if_true, Option.some.injEq] at h
-        subst h
-        intro k op hk' v t hs
-        by_cases hki : k = i
-        · subst hki
-          simp at hk'
-          subst hk'
-          exact hi k o hk v t hs
-        · simp only [updOp_other _ _ hki] at hk'
-          exact hi k op hk' v t hs
-      · simp [ha] at h
+    obtain ⟨o, ho, _, _, hst, hops, hver⟩ := exitLost_spec h
+    exact inv_frame hi (by omega) (fun _ => hst) (hops_upd ho hops rfl rfl rfl)
+  | kill i =>
+    obtain ⟨o, ho, _, _, hst, hops, hver⟩ := kill_spec h
+    exact inv_frame hi (by omega) (fun _ => hst) (hops_upd ho hops rfl rfl rfl)
+  | wake i lag =>
+    obtain ⟨o, ho, _, _, _, hops, hver⟩ := wake_spec h
+    exact inv_frame hi (by omega) (fun e => by omega) (hops_upd ho hops rfl rfl rfl)
+  | tick d =>
+    simp only [step, Option.some.injEq] at h
+    subst h
+    exact hi
+  | expire j =>
+    simp only [step, Option.some.injEq] at h
+    subst h
+    exact hi
+  | foreign j r =>
+    simp only [step, Option.some.injEq] at h
+    subst h
+    exact inv_frame hi (by simp only; omega) (fun e => by simp only at e; omega) (hops_same rfl)
   | deliver i =>
     obtain ⟨o, ho, _, _, hst, hver, hsame, hops⟩ := deliver_spec h
     intro k op hk v t hs
@@ -260,73 +429,31 @@ theorem inv_step {u : Int} {s s' : State} {l : Label} (hi : Inv u s) (h : step u
       have : s'.ver = s.ver := by omega
       rw [hsame this]
       exact h2 (by omega)
-  | tick d =>
-    simp only [step, Option.some.injEq] at h
-    subst h
-    exact hi
-  | expire j =>
-    simp only [step, Option.some.injEq] at h
-    subst h
-    exact hi
-  | foreign j r =>
-    simp only [step, Option.some.injEq] at h
-    subst h
-    intro k op hk v t hs
-    obtain ⟨h1, _⟩ := hi k op hk v t hs
-    exact ⟨by simp only; omega, by simp only; omega⟩
   | deliverStale i view =>
-    simp only [step] at h
-    cases hk : s.ops i with
-    | none => simp [hk] at h
-    | some o =>
-      simp only [hk] at h
-      by_cases ha : o.alive = true
-      · simp only [ha, if_true, Option.some.injEq] at h
-        subst h
-        intro k op hk' v t hs
-        by_cases hki : k = i
-        · subst hki
-          simp at hk'
-          subst hk'
-          simp at hs
-        · simp only [updOp_other _ _ hki] at hk'
-          obtain ⟨h1, h2⟩ := hi k op hk' v t hs
-          refine ⟨by simp only; split <;> omega, ?_⟩
-          simp only
-          intro hv
-          split at hv
-          · rename_i hc
-            -- nothing was cleaned: the status is untouched
-            have : (decideCore u view.peers i o.prio true (some o.paused) s.now s.now).cleaned = [] := by
-              simpa [List.isEmpty_iff] using hc
-            rw [this]
-            have hf : Status.eraseAll s.status [] = s.status := by
-              unfold Status.eraseAll
-              exact List.filter_eq_self.mpr (fun e _ => by simp)
-            rw [hf]
-            exact h2 hv
-          · omega
-      · simp [ha] at h
-  | wake i lag =>
-    simp only [step] at h
-    cases hk : s.ops i with
-    | none => simp [hk] at h
-    | some o =>
-      simp only [hk] at h
-      by_cases ha : o.sleeping = true
-      · simp only [ha, if_true, Option.some.injEq] at h
-        subst h
-        intro k op hk' v t hs
-        by_cases hki : k = i
-        · subst hki
-          simp at hk'
-          subst hk'
-          obtain ⟨h1, _⟩ := hi k o hk v t hs
-          exact ⟨by simp only; omega, by simp only; omega⟩
-        · simp only [updOp_other _ _ hki] at hk'
-          obtain ⟨h1, _⟩ := hi k op hk' v t hs
-          exact ⟨by simp only; omega, by simp only; omega⟩
-      · simp [ha] at h
+    obtain ⟨o, ho, _, _, hst, hver, hsame, hops⟩ := stale_spec h
+    intro k op hk v t hs
+    rw [hops] at hk
+    by_cases hki : k = i
+    · subst hki
+      simp at hk
+      subst hk
+      by_cases hb : benignView u s k o.prio view = true
+      · simp only [staleSeen, hb, if_true, Option.some.injEq, Prod.mk.injEq] at hs
+        obtain ⟨rfl, rfl⟩ := hs
+        refine ⟨hver, ?_⟩
+        intro hv
+        rw [hsame hv.symm]
+        -- a benign view yields the verdict of the current status
+        simp only [benignView, Bool.and_eq_true, beq_iff_eq] at hb
+        exact hb.1
+      · simp [staleSeen, hb] at hs
+    · rw [updOp_other _ _ hki] at hk
+      obtain ⟨h1, h2⟩ := hi k op hk v t hs
+      refine ⟨by omega, ?_⟩
+      intro hv
+      have : s'.ver = s.ver := by omega
+      rw [hsame this]
+      exact h2 (by omega)
 
 theorem inv_reachable {u : Int} {s : State} (h : Reachable u s) : Inv u s := by
   induction h with
